@@ -18,8 +18,8 @@ from fsmc.ref import nnls as RN, tangent as RT
 PID = "C16"
 RULE = ("states = (tissue, angle limit between consecutive breakpoints, static|velocity, default|lsq ones|lsq ramp); "
         "non-trivial = at least one interface excluded and at least one kept; classes = (tissue, excluded set size, mode, back-end)")
-BOUND = {"quick": "9 tissues (curved equilibrium, deformed, jittered 4-fold lattices, seeded, three with a lens cell: as built and with a neighbour of the lens stored clockwise, so that two inferred interfaces run between the same junctions in the same direction) x all inter-breakpoint limits x 2 modes x 3 back-ends",
-         "thorough": "13 tissues x all inter-breakpoint limits x 2 modes x 3 back-ends"}
+BOUND = {"quick": "11 tissues (two of them handed over as a series with cm=True, so that the frames are re-centred in place after their interfaces were built; curved equilibrium, deformed, jittered 4-fold lattices, seeded, three with a lens cell: as built and with a neighbour of the lens stored clockwise, so that two inferred interfaces run between the same junctions in the same direction) x all inter-breakpoint limits x 2 modes x 3 back-ends",
+         "thorough": "15 tissues x all inter-breakpoint limits x 2 modes x 3 back-ends"}
 ASSUMPTIONS = ["junction opening angles are taken from the library's own public versors (get_versor_from_vertex); their accuracy is C02's subject. They are cross-checked against analytic angles away from breakpoints",
                "a limit exactly equal to an opening angle is not generated"]
 REQUIRED_TAGS = {"all": ["excluded_some", "excluded_all", "excluded_none", "lsq_with_exclusions", "velocity", "fourfold", "restricted_unique"]}
@@ -68,8 +68,22 @@ def build_pair(spec):
         lens = sorted(at["C"], key=int)[-1]
         nb = [it["R"] for it in at["I"] if it["L"] == lens and it["R"] is not None]
         lab = {"flips": nb[:1]}
+    use_cm = False
+    if "cm" in spec[4:]:
+        # the series is handed over with cm=True: ForSys re-centres every frame in place AFTER the Frames (and their interfaces)
+        # were built; the tissue sits away from the origin so that the shift is large
+        use_cm = True
+        cm = SC.make_cmap(mob, 0.3, (3.0, -2.0), 1.0, ext)
     s, infos, ex = SC.build_series([{"at": at, "k": 3, "cmap": cm, "post": post0, "time": 0.0, "lab": lab},
-                                    {"at": at, "k": 3, "cmap": cm, "post": post1, "time": 0.4, "lab": lab}])
+                                    {"at": at, "k": 3, "cmap": cm, "post": post1, "time": 0.4, "lab": lab}], cm=use_cm)
+    if use_cm:
+        # the reference geometry is the re-centred one (the shift is the all-vertex mean, rounded to 3 decimals, read from the frame)
+        import numpy as _np
+        j0 = next(iter(infos[0]["jvid"]))
+        zlib = complex(s.frames[0].vertices[infos[0]["jvid"][j0]].x, s.frames[0].vertices[infos[0]["jvid"][j0]].y)
+        shift = zlib - cm(T.zc(at["J"][j0])) if post0 is None else None
+        if shift is not None:
+            cm = T.CMap(list(cm.ops) + [T.aff(1.0, shift)])
     if ex is not None:
         raise RuntimeError("series construction failed: %s" % ex)
     s._harness_info1 = infos[1]
@@ -336,6 +350,8 @@ def build(tier, seed):
     specs += [["v", "v6x5", M, 0.0], ["sq", 3, 0.2, seed + 3, ["m", 0.03, 0.0], 0.0]]
     # tissues with a lens cell: two internal interfaces run between the same two junctions
     specs += [["v", "v5x5+lens0", M, 0.0], ["v", "v6x5+lens5", ["mc", 0.12, 0.05], 0.05, "flip_lens_neighbour"], ["v", "v5x5+lens0", M, 0.0, "flip_lens_neighbour"]]
+    # series handed over with cm=True (frames re-centred in place after their interfaces were built): straight and curved tissue
+    specs += [["v", "v5x5", ["id"], 0.0, "cm"], ["v", "v5x5", M, 0.0, "cm"]]
     if tier == "thorough":
         specs += [["v", "v6x6", ["id"], 0.05], ["sq", 5, 0.3, seed + 2, ["id"], 0.03], ["v", "v7x6", M, 0.0],
                   ["v", "v6x5", ["mc", 0.12, 0.05], 0.15]]
